@@ -67,7 +67,8 @@ def _profiler(frame, event, arg):
     if event == "call":
         co = frame.f_code
         fn = co.co_filename
-        if fn.startswith(REPO + "/ascmhl/"):
+        if fn.startswith(REPO + "/ascmhl/") and "<" not in co.co_qualname and frame.f_back is not None and \
+                not (frame.f_back.f_code.co_name == "<module>" and frame.f_back.f_code.co_filename == fn and co.co_name[:1].isupper()):
             _PROFILE_FUNCS.add("%s:%s" % (fn[len(REPO) + 1:], co.co_qualname))
 
 
